@@ -44,6 +44,24 @@ add("C20", "Hypothesis generated datasets/queries vs brute-force nearest row; di
     "Trusted: numpy RNG seeding via vopy.utils.set_seed; statistical false-alarm probability < 1e-8 per case; near-tie queries skipped.",
     "DESIGN.md section 3 C20")
 
+add("C09", "Hypothesis margin-targeted region pairs vs closed-form support-function oracle (exact rationals on dyadic data)",
+    "Pairs of hyper-rectangles / ellipsoids are placed by the generator at certified facet margins +-{1..1e-5} x scale for every cone class "
+    "(K>=m, 2-4-D) and scalar/vector slacks; confidence_region_is_dominated is compared with per-facet support-function minima; dyadic "
+    "rectangles are decided in exact rational arithmetic, boundary included.",
+    "Band: rectangles 1e-11*scale, ellipsoids 2e-7+2e-6*scale (measured flip level of the SOCP path <= 1e-8); slacks non-negative.",
+    "DESIGN.md section 3 C09")
+add("C10", "Hypothesis margin-targeted region pairs vs certificate-checked LP / convex-dual oracles",
+    "confidence_region_is_covered is compared with a certified bracket [lb,ub] of the max-min cover margin: boxes by an LP (HiGHS) whose primal witness "
+    "and dual separating functional are re-verified by arithmetic, ellipsoids by the convex dual over the simplex plus primal recovery; pairs are "
+    "placed at margins +-{1..3e-3} x scale over scales 1e-4..1e2, all cone classes and slack forms.",
+    "Band 1e-9+1e-3*scale = measured accuracy of the code's SCS fallback path; an oracle bracket straddling the band counts indeterminate.",
+    "DESIGN.md section 3 C10")
+add("C11", "Hypothesis margin-targeted rectangle pairs and families vs per-vertex LP oracle with verified certificates",
+    "confidence_region_check_dominates is checked for soundness under every cone class and for completeness under two-facet 2-D cones against "
+    "min over vertices of a certified LP margin, with nested / degenerate / equal-coordinate pairs; VOGP and EpsilonPAL.compute_pessimistic_set "
+    "are compared with the exact non-dominated family.",
+    "Band 1e-9*scale; LP certificates verified by arithmetic.", "DESIGN.md section 3 C11")
+
 PENDING = {}
 
 
